@@ -164,7 +164,7 @@ func (fc *FuncCtx) execBlock(st *State, list []ast.Stmt) flow {
 
 // stmtText returns the whitespace-normalised source text of a statement.
 func (fc *FuncCtx) stmtText(s ast.Stmt) string {
-	p0, p1 := fc.eng.fset.Position(s.Pos()), fc.eng.fset.Position(s.End())
+	p0, p1 := fc.pkg.Fset.Position(s.Pos()), fc.pkg.Fset.Position(s.End())
 	if !p0.IsValid() {
 		return ""
 	}
@@ -416,6 +416,21 @@ func (fc *FuncCtx) execAssign(st *State, x *ast.AssignStmt) {
 			}
 			if _, isVar := obj.(*types.Var); isVar && !(obj.Pkg() != nil && obj.Parent() == obj.Pkg().Scope()) {
 				fc.assignObj(st, obj, vals[i])
+				continue
+			}
+		}
+		// *p = v for a struct pointer p: field-wise copy into the object p points to
+		if se, ok := ast.Unparen(lhs).(*ast.StarExpr); ok {
+			if pt := fc.info.TypeOf(se.X); pt != nil && isStructPtr(pt) && vals[i].T != nil {
+				dst := fc.evalExpr(st, se.X)
+				stt := types.Unalias(pointee(pt)).Underlying().(*types.Struct)
+				for k := 0; k < stt.NumFields(); k++ {
+					f := stt.Field(k)
+					s := fc.sortOf(f.Origin().Type())
+					key := fc.fieldKey(f)
+					v := Select(fc.heapArr(st, key, s), vals[i].T)
+					fc.writeLoc(st, &Loc{Kind: "field", Base: dst.T, Key: key, Sort: s, Typ: f.Type()}, v)
+				}
 				continue
 			}
 		}
